@@ -413,6 +413,20 @@ def new_value(node, fname, cur, rng, counter):
         import loopy as lp
         if isinstance(cur, lp.TranslationUnit):
             from .srecipe import loopy_kernel
+            if "scale" in cur.callables_table \
+                    and "apply_nest" in cur.callables_table:
+                # the same unit with another body of the CALLEE only
+                n = int(cur["apply_nest"].arg_dict["a"].shape[0])
+                # (through call_loopy, which narrows the entrypoints and runs
+                # inference over the unit: the alternative must be a unit the
+                # API produces, differing in nothing but the callee)
+                from pytato.loopy import call_loopy
+                for which in ("nest2", "nest3"):
+                    alt = call_loopy(loopy_kernel(which, n), dict(node.bindings),
+                                     node.entrypoint).translation_unit
+                    if alt != cur:
+                        return alt
+                raise Ineffective("no alternative callee")
             alt = loopy_kernel("twice", 7)
             if alt == cur:
                 alt = loopy_kernel("twice", 8)
